@@ -151,6 +151,24 @@ def run_strategy(spec, strat, n, timeout=25, strict=True):
         signal.signal(signal.SIGVTALRM, old)
 
 
+def call_budgeted(timeout, fn, *a):
+    """O.quiet(fn, *a) under a CPU-time budget (pure-Python callee). -> (result, excinfo, status ok|timeout)"""
+    import signal
+
+    def on_alarm(signum, frame):
+        raise SoftTimeout()
+    old = signal.signal(signal.SIGVTALRM, on_alarm)
+    signal.setitimer(signal.ITIMER_VIRTUAL, timeout)
+    try:
+        r, err, out = O.quiet(fn, *a)
+        return r, err, "ok"
+    except SoftTimeout:
+        return None, None, "timeout"
+    finally:
+        signal.setitimer(signal.ITIMER_VIRTUAL, 0)
+        signal.signal(signal.SIGVTALRM, old)
+
+
 def exhaust(spec, strat, cap, timeout=25):
     """Ask for cap+1 sequences. -> (sequences|None, excinfo|None, status) ; status 'too_big' when more than cap."""
     r, err, st = run_strategy(spec, strat, cap + 1, timeout)
